@@ -7,7 +7,7 @@ import time
 
 
 KEY_PREFIXES = ('fault=', 'site=', 'stale:', 'differs:', 'via=', 'attempt=',
-                'persist')
+                'persist', 'link-copy')
 
 
 def key_features(v):
